@@ -126,7 +126,7 @@ func directed(r *rand.Rand, idx int) *ccase {
 	}
 	c := &ccase{Idx: idx, Client: "normal"}
 	kv := []string{"query", q, "start", fmt.Sprint(rdcat.FromS * 1e9), "end", fmt.Sprint(rdcat.ToS * 1e9), "step", "5"}
-	scenario := []string{"limit-early", "db-error-midway", "client-leaves", "plain", "limit-early-forward"}[r.Intn(5)]
+	scenario := []string{"limit-early", "db-error-midway", "client-leaves", "plain", "limit-early-forward", "limit-boundary", "step-boundary"}[r.Intn(7)]
 	c.DB = dbPlan{Target: 0, Mode: "ok", Shape: []string{"batch", "many", "many"}[r.Intn(3)]}
 	var specials []string
 	switch scenario {
@@ -136,6 +136,21 @@ func directed(r *rand.Rand, idx int) *ccase {
 			kv = append(kv, "direction", "forward")
 		}
 		specials = []string{"limit=small"}
+	case "limit-boundary":
+		// boundary limits on pipelines whose results are assembled in Go (a limit is applied in several places there)
+		v := []string{"-1", "0", "-9223372036854775808", "9223372036854775807", "1e3", ""}[r.Intn(6)]
+		kv = append(kv, "limit", v)
+		specials = []string{"limit=boundary:" + v}
+	case "step-boundary":
+		// steps around the millisecond resolution on instant/range metric pipelines (points per series explode)
+		v := []string{"0.001", "0.01", "0.0005", "1e-3", "0.02", "300", "86400"}[r.Intn(7)]
+		for i := 0; i+1 < len(kv); i += 2 {
+			if kv[i] == "step" {
+				kv[i+1] = v
+			}
+		}
+		kv = append(kv, "limit", "5000")
+		specials = []string{"step=boundary:" + v}
 	case "db-error-midway":
 		kv = append(kv, "limit", "5000")
 		c.DB.Mode = []string{"err-row", "cancel-row"}[r.Intn(2)]
@@ -151,9 +166,15 @@ func directed(r *rand.Rand, idx int) *ccase {
 	}
 	path := "/loki/api/v1/query_range"
 	ep := "loki.query_range"
-	if r.Intn(4) == 0 {
+	if r.Intn(4) == 0 || strings.HasSuffix(scenario, "-boundary") && r.Intn(2) == 0 {
 		path, ep = "/loki/api/v1/query", "loki.query"
-		kv = []string{"query", q, "time", fmt.Sprint(rdcat.ToS * 1e9), "step", "5", "limit", kv[len(kv)-1]}
+		stepV := "5"
+		for i := 0; i+1 < len(kv); i += 2 {
+			if kv[i] == "step" {
+				stepV = kv[i+1]
+			}
+		}
+		kv = []string{"query", q, "time", fmt.Sprint(rdcat.ToS * 1e9), "step", stepV, "limit", kv[len(kv)-1]}
 	}
 	c.Gen = rdcat.GenCase{Req: rdcat.Req{Method: "GET", Path: path, RawQuery: rdcat.Q(kv...)}, Endpoint: ep, QueryShape: shape + ":" + scenario, Specials: specials}
 	return c
